@@ -57,7 +57,8 @@ def ddmin(items, test, deadline, keep=lambda x: False):
     return items
 
 
-def minimise_replay(rep, want, run, deadline, max_runs=200):
+def minimise_replay(rep, want, run, deadline, max_runs=200,
+                    keep=lambda op: False):
     """rep: replay dict with 'ops' and 'project'; run(rep) -> list of
     violation dicts.  Returns (rep, violation) minimised."""
     runs = [0]
@@ -86,7 +87,8 @@ def minimise_replay(rep, want, run, deadline, max_runs=200):
     idx = want.get('op_index')
     if idx is not None and idx + 1 < len(rep['ops']):
         attempt(with_ops(rep['ops'][:idx + 1]))
-    ddmin(best['rep']['ops'], lambda ops: attempt(with_ops(ops)), deadline)
+    ddmin(best['rep']['ops'], lambda ops: attempt(with_ops(ops)), deadline,
+          keep)
 
     # statements of the project's scripts, last to first
     proj = best['rep'].get('project')
